@@ -6,13 +6,13 @@ using namespace rg;
 
 // kind 0: block read (addr, n); kind 1: iteration (addr, n, script: stop kind s at k-th call; s 0 never, 1 positive, 2 negative,
 // 3: at the k-th call the callback itself iterates another range of the same table (k odd: one that ends earlier, k even: one that ends later) and goes on)
-struct Case { TableD t; std::vector<std::vector<uint16_t>> content; int kind; uint32_t addr, n; int s; unsigned k; };
+struct Case { TableD t; std::vector<std::vector<uint16_t>> content; int kind; uint32_t addr, n; int s; unsigned k; unsigned toggle = 0; };   // toggle: 1 + index of an area whose READABLE flag is flipped after initialisation (run-time lock / unlock)
 static Case g_cur;
 static std::string g_prefix;   // history in front of the case in flight (re-layout phase)
 static std::string ser_case(const Case &c) {
     std::string s = rm::ser(c.t);
     for (size_t i = 0; i < c.content.size(); i++) { s += vp::fmt("content %zu", i); for (uint16_t w : c.content[i]) s += vp::fmt(" %u", w); s += "\n"; }
-    s += vp::fmt("q %d %u %u %d %u\n", c.kind, c.addr, c.n, c.s, c.k);
+    s += vp::fmt("q %d %u %u %d %u %u\n", c.kind, c.addr, c.n, c.s, c.k, c.toggle);
     return s;
 }
 struct IterCtx { std::vector<uint32_t> seen; int s; unsigned k; uint32_t in_addr = 0, in_n = 0; std::vector<uint32_t> inner; bool inner_ran = false; RegisterAccess inner_rc; };
@@ -26,11 +26,17 @@ static int iter_cb(RegisterTable *t, RegisterHandle h, void *arg) {
     return 0;
 }
 
-static std::string run_case(const Case &c, std::string &msg) {
-    g_cur = c;
-    Live lv(c.t);
+static std::string run_case(const Case &c0, std::string &msg) {
+    g_cur = c0;
+    Live lv(c0.t);
     RegisterInit in = lv.init();
     if (in.code != REG_INIT_SUCCESS) { msg = vp::fmt("valid table refused: code %d", (int)in.code); return "init:refused"; }
+    Case c = c0;
+    if (c.toggle && c.toggle <= c.t.areas.size()) {
+        // the flag lives in the caller's area description; whether a word is readable is what the flag says when the read happens
+        lv.areas[c.toggle - 1].flags ^= REG_AF_READABLE;
+        c.t.areas[c.toggle - 1].readable = !c.t.areas[c.toggle - 1].readable;
+    }
     rm::Space m; m.init(c.t); m.mem = c.content;
     lv.copy_from(m);
     vp::count();
@@ -149,7 +155,7 @@ static void run() {
     vp::CaseScope scope([] { return g_prefix + ser_case(g_cur); });
     size_t ntables = (a.thorough() ? 40000 : 3000) / a.nshards;
     vp::stats().rule = vp::fmt("enum: %zu generated valid tables per shard with randomised content; every (address, length) of a window from 2 below the first area to 2 behind the last as block read "
-                               "(exact-size caller buffer with canary words in front) and as iteration range x callback scripts (never stop; positive / negative result at the k-th call for every k; a nested iteration over another range started from inside the k-th call); block reads of 2^31..2^32-1 words from every area (must be refused at the first unmapped address without touching the buffer); histories over one table object: layout A initialised and read once, then the object re-laid-out (area dropped / inserted / split), initialised again and queried at an address layout A mapped under another area handle", ntables);
+                               "(exact-size caller buffer with canary words in front) and as iteration range x callback scripts (never stop; positive / negative result at the k-th call for every k; a nested iteration over another range started from inside the k-th call); block reads after the READABLE flag of an area was flipped at run time; block reads of 2^31..2^32-1 words from every area (must be refused at the first unmapped address without touching the buffer); histories over one table object: layout A initialised and read once, then the object re-laid-out (area dropped / inserted / split), initialised again and queried at an address layout A mapped under another area handle", ntables);
     vp::Rng rng(a.seed * 9973 + a.shard);
     FamilyOpts fo; fo.max_size = 8;
     FamilyOpts big; big.max_areas = 6; big.max_size = 20; big.max_regs = 12;   // thorough tier: every 8th table is a larger one
@@ -173,9 +179,10 @@ static void run() {
             windows.assign(ws.begin(), ws.end());
         }
         for (auto &wn : windows) { uint32_t addr = wn.first, n = wn.second; {
-                c.kind = 0; c.addr = addr; c.n = n; c.s = 0; c.k = 0;
+                c.kind = 0; c.addr = addr; c.n = n; c.s = 0; c.k = 0; c.toggle = 0;
                 std::string msg, key = run_case(c, msg);
                 if (!key.empty()) vp::fail(key, msg, ser_case(c));
+                if (n && (addr + n) % 4 == 1) { int ta = m.area_of(addr + n - 1); if (ta >= 0) { c.toggle = (unsigned)ta + 1; key = run_case(c, msg); if (!key.empty()) vp::fail("after-flag-change:" + key, msg, ser_case(c)); vp::cls("read-after-readable-flag-was-flipped"); c.toggle = 0; } }
                 bool nt = false;
                 if (n) { int a0 = m.area_of(addr); if (a0 >= 0 && !c.t.areas[(size_t)a0].readable && addr > c.t.areas[(size_t)a0].base) { nt = true; vp::cls("read-starts-mid-area-in-write-only-area"); }
                          if (a0 >= 0 && addr + n > c.t.areas[(size_t)a0].end()) { nt = true; vp::cls("read-crosses-area-edge"); } }
@@ -232,7 +239,7 @@ static bool parse_case(const std::string &text, Case &c) {
         auto w = vp::split(l);
         if (w.empty()) continue;
         if (w[0] == "content" && w.size() >= 2) { size_t i = strtoull(w[1].c_str(), 0, 10); if (i < c.content.size()) for (size_t k = 2; k < w.size(); k++) c.content[i].push_back((uint16_t)strtoul(w[k].c_str(), 0, 10)); }
-        else if (w[0] == "q" && w.size() >= 6) { c.kind = atoi(w[1].c_str()); c.addr = (uint32_t)strtoul(w[2].c_str(), 0, 10); c.n = (uint32_t)strtoul(w[3].c_str(), 0, 10); c.s = atoi(w[4].c_str()); c.k = (unsigned)atoi(w[5].c_str()); }
+        else if (w[0] == "q" && w.size() >= 6) { c.kind = atoi(w[1].c_str()); c.addr = (uint32_t)strtoul(w[2].c_str(), 0, 10); c.n = (uint32_t)strtoul(w[3].c_str(), 0, 10); c.s = atoi(w[4].c_str()); c.k = (unsigned)atoi(w[5].c_str()); c.toggle = w.size() >= 7 ? (unsigned)atoi(w[6].c_str()) : 0; }
     }
     for (size_t i = 0; i < c.t.areas.size(); i++) c.content[i].resize(c.t.areas[i].size);
     return true;
